@@ -29,14 +29,9 @@ func (obr *observerRunner) UpdateTableState(tableInfo *pokertable.Table) error {
 
 	obr.tableInfo = tableInfo
 
-	if !obr.systemMode {
+	if !obr.systemMode && tableInfo.State.GameState != nil {
 		// Filtering private information for observer
-		switch tableInfo.State.Status {
-		case pokertable.TableStateStatus_TableGamePlaying:
-			fallthrough
-		case pokertable.TableStateStatus_TableGameSettled:
-			tableInfo.State.GameState.AsObserver()
-		}
+		tableInfo.State.GameState.AsObserver()
 	}
 
 	// Emit event
